@@ -282,6 +282,7 @@ func (P) Generate(g *hx.Gen) {
 	maxN := g.Pick(8, 12)
 	dupevCases(g)
 	wideCases(g)
+	fsCases(g)
 
 	// ---- corpus: 4 equal validators, three precommits for B make the commit, two do not
 	{
